@@ -169,6 +169,8 @@ def _sweeten_op(model, cname, op, data):
         return data.lower()
     if k == 'set_scalar':
         return M.dec(op[1], None)
+    if k == 'attrs_to_seq' and isinstance(data, dict):
+        return list(data.values())
     raise ValueError('no plain model for sweeten op %r' % (op,))
 
 
